@@ -141,10 +141,13 @@ def impl(case):
         t0 = Trajectory(species=sp, coords=c, lattice=synth.make_lattice(m), time_step=1e-15)
         store0 = [[False, [list(f) for f in case['coords']], list(case['coords'][0])]]
     objs = [t0]
+    lat0, dt0 = np.asarray(t0.lattice).copy(), float(t0.time_step)
     species = [list(case['species'])]
     mops, results = [], []
 
     def new(t, spc, val):
+        if not np.array_equal(np.asarray(t.lattice), lat0) or float(t.time_step) != dt0:
+            stale.append(f'op {len(mops)}: the derived trajectory has lattice {np.asarray(t.lattice).round(6).tolist()} / time step {t.time_step}, the source {lat0.round(6).tolist()} / {dt0}')
         objs.append(t)
         species.append(spc)
         results.append(['val', val])
@@ -199,11 +202,14 @@ def impl(case):
             # derived quantities / derived trajectories that must leave their source untouched: the source ends up in
             # displacement mode (they read .displacements), which the model sees as a displacement query
             if kind == 'driftcorr':
-                t.apply_drift_correction()
+                dobj = t.apply_drift_correction()
             elif kind == 'msd':
                 t.mean_squared_displacement()
+                dobj = None
             else:
-                t.center_of_mass()
+                dobj = t.center_of_mass()
+            if dobj is not None and (not np.array_equal(np.asarray(dobj.lattice), lat0) or float(dobj.time_step) != dt0):
+                stale.append(f'op {len(mops)}: {kind} returns a trajectory with lattice {np.asarray(dobj.lattice).round(6).tolist()}, the source has {lat0.round(6).tolist()}')
             mops.append(['QDisp', i])
             results.append(['val', _arr(t.coords) if t.coords_are_displacement else None])
         elif kind == 'slice':
@@ -260,7 +266,7 @@ def oracle(case, out):
         return []
     if 'mops' not in out:
         return [('c15/harness-error', f"{out.get('error')}: {out.get('msg')} {out.get('tb', '')[-400:]}")]
-    fs = [('ops/stale-derived-result', m) for m in out.get('stale', [])]
+    fs = [('ops/derived-lattice-or-time-step-changed' if 'lattice' in m else 'ops/stale-derived-result', m) for m in out.get('stale', [])]
     c0 = np.array(case['coords'], dtype=np.int64)
     truth = [np.mod(c0, DEN)]
     mutated = set()
